@@ -121,6 +121,14 @@ func CreateCallback(c gocoro.Coroutine[*t_aio.Submission, *t_aio.Completion, any
 					Timeout:   r.CreateCallback.Timeout,
 					CreatedOn: createdOn,
 				}
+			} else {
+				// nothing was registered: either the registration already exists or
+				// the promise was completed in the meantime, read the promise again
+				// so that a completed promise is never reported as pending
+				p, err = rereadPromise(c, r, p)
+				if err != nil {
+					return nil, err
+				}
 			}
 		}
 
@@ -151,4 +159,46 @@ func CreateCallback(c gocoro.Coroutine[*t_aio.Submission, *t_aio.Completion, any
 
 func callbackId(rootPromiseId, promiseId string) string {
 	return fmt.Sprintf("__resume:%s:%s", rootPromiseId, promiseId)
+}
+
+func rereadPromise(c gocoro.Coroutine[*t_aio.Submission, *t_aio.Completion, any], r *t_api.Request, p *promise.Promise) (*promise.Promise, error) {
+	completion, err := gocoro.YieldAndAwait(c, &t_aio.Submission{
+		Kind: t_aio.Store,
+		Tags: r.Tags,
+		Store: &t_aio.StoreSubmission{
+			Transaction: &t_aio.Transaction{
+				Commands: []*t_aio.Command{
+					{
+						Kind: t_aio.ReadPromise,
+						ReadPromise: &t_aio.ReadPromiseCommand{
+							Id: p.Id,
+						},
+					},
+				},
+			},
+		},
+	})
+
+	if err != nil {
+		slog.Error("failed to read promise", "req", r, "err", err)
+		return nil, t_api.NewError(t_api.StatusAIOStoreError, err)
+	}
+
+	util.Assert(completion.Store != nil, "completion must not be nil")
+	util.Assert(len(completion.Store.Results) == 1, "completion must have one result")
+
+	result := completion.Store.Results[0].ReadPromise
+	util.Assert(result != nil, "result must not be nil")
+
+	if result.RowsReturned != 1 {
+		return p, nil
+	}
+
+	current, err := result.Records[0].Promise()
+	if err != nil {
+		slog.Error("failed to parse promise record", "record", result.Records[0], "err", err)
+		return nil, t_api.NewError(t_api.StatusAIOStoreError, err)
+	}
+
+	return current, nil
 }
